@@ -35,7 +35,7 @@ def main(d):
     if o.strip() and o.strip() != "?? _seed/":
         print("refusing: /repo has local modifications:\n" + o)
         return 2
-    env = dict(os.environ, PYTHONPATH=os.path.join(REPO, "src"))
+    env = dict(os.environ, PYTHONPATH=os.path.join(REPO, "src") + os.pathsep + REPO)
     # the demos were written to be run as <tree>/_seed/demo.py with the tree as working directory
     os.makedirs(os.path.join(REPO, "_seed"), exist_ok=True)
     import shutil
